@@ -276,6 +276,12 @@ pub fn run(args: &Args, rep: &mut Report) {
     for m in subject::secondary_modes(thorough) {
         specs.push((m, "A".to_string(), false));
     }
+    // degenerate contents (all zero, all ones, every block / every chunk identical, sparse) on the lattice
+    for m in subject::primary_modes() {
+        for s in ["Z", "F", "P64", "P1024", "S"] {
+            specs.push((m.clone(), s.to_string(), false));
+        }
+    }
     if thorough {
         // every context length 0..=2100 on a reduced length set
         for n in 0..=2100usize {
@@ -321,7 +327,7 @@ pub fn run(args: &Args, rep: &mut Report) {
     rep.configs.push(subject::config_json());
     rep.rule = format!(
         "every length 0..={} plus the lattice k*1024+d (k<={}, 2^j chunks j<={}, {{4,8,16}}*m chunks; d in -65,-64,-63,-1,0,1,63,64,65) \
-         x streams A,B x primary modes (hash, keyed(test key), derive(test context)) x every forced SIMD level; secondary keys/contexts \
+         x streams A,B x primary modes (hash, keyed(test key), derive(test context)) x every forced SIMD level; secondary keys/contexts and five degenerate contents (zeros, ones, 64- and 1024-periodic, sparse) \
          on {} lattice lengths; a purity sweep that overwrites the same input / key / context buffers in place between calls; thorough: hash of 2^31+-1, 2^32-1 and 2^32+1025 bytes; non-trivial = distinct (level, mode, stream, length) with length > 0",
         full_range(thorough), if thorough { 2048 } else { 512 }, if thorough { 14 } else { 10 }, lite.len()
     );
@@ -333,7 +339,7 @@ pub fn run(args: &Args, rep: &mut Report) {
                               "expected": vcommon::hex(&t.expected[t.expected.len() / 2].1)}));
         }
     }
-    rep.assumptions.push("input content restricted to streams A (251-periodic paint) and B (xorshift64*)".into());
+    rep.assumptions.push("input content restricted to streams A (251-periodic paint) and B (xorshift64*) on the full range, plus five degenerate contents on the lattice".into());
     rep.assumptions.push(format!("inputs longer than {} bytes are not explored", lens.last().unwrap()));
 }
 
